@@ -85,24 +85,34 @@ def run(R):
                 R.check(b.dominates(bb, rb), 'C03.R1', 'insert-unconditional:%s' % ('te' if te and bb == te[0] else 'ct'), site(b, bb), 'insert dominates the return')
         # path placement: both arms write parts.path_and_query from `path`
         wr = [(bb, i, st) for bb, i, st in mirlib.assignments(b, lambda st: mirlib.place_fields(st['p'])[-1:] == ['path_and_query'])]
-        R.check(len(wr) == 2, 'C03.R1', 'path-two-arms', site(b), 'assignments to parts.path_and_query: %d' % len(wr))
+        path_n = param_of_type(b, r'PathAndQuery$')
+        is_path = lambda x: isinstance(x, tuple) and x and x[0] == 'arg' and x[1] == path_n
+        alts = []
         for bb, i, st in wr:
-            v = b._origin_def(('stmt', bb, i, st['rv']), 0, set())
-            R.check(term_contains(v, lambda x: x and x[0] == 'arg' and x[2] == 'path'), 'C03.R1', 'path-from-method-path', site(b, bb, i), 'path_and_query = %s' % show(v)[:140])
-        # the appended arm (origin with a path prefix): "{origin path}{method path}" — the origin's *path*, not path+query
-        napp = 0
-        for bb, i, st in wr:
-            v = b._origin_def(('stmt', bb, i, st['rv']), 0, set())
+            v = mirlib.simplify(b._origin_def(('stmt', bb, i, st['rv']), 0, set()))
+            v = strip_refs(v)
+            if v[0] == 'agg' and v[1].get('variant') == 'Some':
+                v = strip_refs(v[2][0])
+            for a_ in (v[1] if v[0] == 'phi' else [v]):
+                alts.append((bb, i, strip_refs(a_)))
+        R.check(len(alts) == 2, 'C03.R1', 'path-two-arms', site(b), 'values parts.path_and_query can take: %d (the method path, or the origin prefix + method path)' % len(alts))
+        napp = nplain = 0
+        for bb, i, v in alts:
+            R.check(term_contains(v, is_path), 'C03.R1', 'path-from-method-path', site(b, bb, i), 'path_and_query = %s' % show(v)[:140])
             tpl, fargs = fmt_of(b, v)
             if tpl is not None:
+                # the appended arm (origin with a path prefix): "{origin path}{method path}" — the origin's *path*, not path+query
                 napp += 1
                 R.eq(tpl, ['{}', '{}'], 'C03.R1', 'path-append-template', site(b, bb, i), 'template of the prefixed method path')
                 ok0 = len(fargs) == 2 and is_call(strip_refs(fargs[0]), name='path') and 'PathAndQuery' in strip_refs(fargs[0])[1]
-                ok1 = len(fargs) == 2 and term_contains(fargs[1], lambda x: x and x[0] == 'arg' and x[2] == 'path')
+                ok1 = len(fargs) == 2 and term_contains(fargs[1], is_path)
                 R.check(ok0 and ok1, 'C03.R1', 'path-append-args', site(b, bb, i), 'pieces = [origin.path() (not as_str(): that includes the query), method path]: %s' % [show(x)[:60] for x in fargs])
+            elif is_path(v):
+                nplain += 1
+                R.ok('C03.R1', 'path-no-query-leak', site(b, bb, i), 'path_and_query = the method path itself')
             else:
                 sv = show(v)
-                R.check('as_str' not in sv and 'to_string' not in sv or term_contains(v, lambda x: x and x[0] == 'arg' and x[2] == 'path') and not term_contains(v, lambda x: is_call(x, name='as_str') and 'PathAndQuery' in x[1]), 'C03.R1', 'path-no-query-leak', site(b, bb, i), 'path_and_query = %s' % sv[:120])
+                R.check(('as_str' not in sv and 'to_string' not in sv) and not term_contains(v, lambda x: is_call(x, name='as_str') and 'PathAndQuery' in x[1]), 'C03.R1', 'path-no-query-leak', site(b, bb, i), 'path_and_query = %s' % sv[:120])
         R.check(napp <= 1, 'C03.R1', 'path-append-arms', site(b), 'arms that prefix the origin path: %d' % napp)
         if napp == 0:
             # hand-written join: the origin part must come from PathAndQuery::path
